@@ -219,8 +219,25 @@ def _allowed():
     return _ALLOWED
 
 
+_ADDR = None
+
+
 def observe(env, name, data, loop, with_module):
-    """What a user sees of template ``name`` with ``data``: text or exception class, exported names, block names."""
+    """What a user sees of template ``name`` with ``data``: text or exception class, exported names, block names
+    (object addresses a repr put into the text are normalised)."""
+    global _ADDR
+    if _ADDR is None:
+        import re
+
+        _ADDR = re.compile(r" at 0x[0-9a-fA-F]+")
+    out = _observe(env, name, data, loop, with_module)
+    for k in ("text", "body"):
+        if k in out and " at 0x" in out[k]:
+            out[k] = _ADDR.sub(" at 0x?", out[k])
+    return out
+
+
+def _observe(env, name, data, loop, with_module):
     from vt.gen import tsets
 
     out = {}
